@@ -348,3 +348,56 @@ func (cx *Ctx) bceLinearProof(n ast.Node) (bool, string) {
 	}
 	return true, fmt.Sprintf("%d obligations (%v) follow from the %d integer comparisons dominating the expression and len >= 0 (linear elimination)", len(goals), what, nf)
 }
+
+// bceAlwaysFails: the comparisons dominating the index instruction contradict its bounds check: whenever the
+// instruction is reached it panics. (The compiler reports such a check nowhere: its prove pass turns it into an
+// unconditional panic, which -d=ssa/check_bce does not list.)
+func (cx *Ctx) bceAlwaysFails(in ssa.Instruction) bool {
+	p := &linProver{names: map[ssa.Value]string{}, lens: map[string]bool{}}
+	var base, idx ssa.Value
+	switch y := in.(type) {
+	case *ssa.IndexAddr:
+		base, idx = y.X, y.Index
+	case *ssa.Index:
+		base, idx = y.X, y.Index
+	default:
+		return false
+	}
+	var l linForm
+	t := base.Type().Underlying()
+	if pt, ok := t.(*types.Pointer); ok {
+		t = pt.Elem().Underlying()
+	}
+	switch tt := t.(type) {
+	case *types.Array:
+		l = linForm{co: map[string]int64{}, c: tt.Len()}
+	case *types.Slice:
+		l = linForm{co: map[string]int64{p.lenVar(base): 1}}
+	case *types.Basic:
+		if tt.Info()&types.IsString == 0 {
+			return false
+		}
+		l = linForm{co: map[string]int64{p.lenVar(base): 1}}
+	default:
+		return false
+	}
+	i := p.form(idx, 0)
+	var sys []linForm
+	nf := 0
+	for _, e := range cx.Fx.info(in.Parent()).facts[in.Block()] {
+		before := len(sys)
+		p.factsOf(e.Cond, e.Pol, &sys)
+		if len(sys) > before {
+			nf++
+		}
+	}
+	if nf == 0 {
+		return false
+	}
+	for lv := range p.lens {
+		sys = append(sys, linForm{co: map[string]int64{lv: -1}})
+	}
+	// in-bounds: -i <= 0 and i - len + 1 <= 0
+	sys = append(sys, i.scale(-1), i.add(l, -1).add(linForm{c: 1}, 1))
+	return infeasible(sys)
+}
